@@ -73,17 +73,23 @@ end Slu
 namespace Slu
 open Slu.Gen
 
+/-- the parent's counter after the report of `cur` -/
+def ukAfter (c : PanelCfg) (sh : Sh) (cur : Option Nat) (d : Nat) : Int :=
+  match cur with
+  | some q => if d = dadPanel c sh q then getZ sh.ukids d - 1 else getZ sh.ukids d
+  | none => getZ sh.ukids d
+
 /-- the complete functional description of one critical section -/
 theorem schedule_frame (c : PanelCfg) (sh : Sh) (cur : Option Nat) (b0 : Nat) (hq : QueueOk sh)
     (hss : sh.state.size = c.n + 1) (hus : sh.ukids.size = c.n + 1)
-    (hdad : ∀ j, j < c.n → j < dadPanel c sh j ∧ dadPanel c sh j ≤ c.n)
-    (hcur : ∀ q, cur = some q → q < c.n)
-    (hqueue : ∀ k, sh.head ≤ k → k < sh.tail → getN sh.queue k < c.n)
+    (Pan : Nat → Prop) (hpn : ∀ j, Pan j → j < c.n)
+    (hdad : ∀ j, Pan j → j < dadPanel c sh j ∧ dadPanel c sh j ≤ c.n)
+    (hdp : ∀ j, Pan j → dadPanel c sh j < c.n → Pan (dadPanel c sh j))
+    (hcur : ∀ q, cur = some q → Pan q)
+    (hqueue : ∀ k, sh.head ≤ k → k < sh.tail → Pan (getN sh.queue k))
     (hroot : ∀ q, cur = some q → dadPanel c sh q = c.n → getZ sh.ukids c.n - 1 ≠ 0) :
     let r := schedule c sh cur b0
-    let uk' : Nat → Int := fun d => match cur with
-      | some q => if d = dadPanel c sh q then getZ sh.ukids d - 1 else getZ sh.ukids d
-      | none => getZ sh.ukids d
+    let uk' : Nat → Int := ukAfter c sh cur
     QueueOk r.1 ∧ r.1.size = sh.size ∧ r.1.state.size = c.n + 1 ∧ r.1.ukids.size = c.n + 1 ∧
     (∀ d, getZ r.1.ukids d = uk' d) ∧
     Picked c sh cur r.2.1 ∧
@@ -105,9 +111,9 @@ theorem schedule_frame (c : PanelCfg) (sh : Sh) (cur : Option Nat) (b0 : Nat) (h
       cases cur with
       | none => rfl
       | some q =>
-        simp only [uk']
-        have hqn := hcur q rfl
-        have hd := hdad q hqn
+        simp only [uk', ukAfter]
+        have hqn := hpn q (hcur q rfl)
+        have hd := hdad q (hcur q rfl)
         rw [getZ_set _ _ _ _ (by rw [hus]; omega)]
         by_cases e : d = dadPanel c sh q
         · rw [if_pos e, if_pos e, e]
@@ -129,18 +135,20 @@ theorem schedule_frame (c : PanelCfg) (sh : Sh) (cur : Option Nat) (b0 : Nat) (h
       rw [hr]
       simp only
       have hunt := a9 j rfl
-      have hjn : j < c.n := by
+      have hjP : Pan j := by
         cases f1 with
         | dad q h1 h2 h3 =>
-          have hqn := hcur q h1
-          have hd := hdad q hqn
+          have hqP := hcur q h1
+          have hd := hdad q hqP
+          apply hdp q hqP
           by_contra hge
           have hn : dadPanel c sh q = c.n := by omega
           rw [hn] at h2
           exact hroot q h1 hn h2
         | queue j' k h1 h2 h3 h4 => rw [← h4]; exact hqueue k h2 h3
+      have hjn : j < c.n := hpn j hjP
       have hd1 : dadPanel c sh1 j = dadPanel c sh j := dadPanel_congr c sh1 sh a7 j
-      have hdj := hdad j hjn
+      have hdj := hdad j hjP
       refine ⟨?_, ?_, ?_, ?_, ?_, f1, (fun h => by cases h), ?_⟩
       · -- QueueOk
         obtain ⟨h1, h2⟩ := a1
